@@ -172,14 +172,14 @@ def oracle_distribute(ctx, rng, n):
             ctx.count("distribute_with_limit")
             if o._dp_limit.any():
                 ctx.count("distribute_limit_active")
-            # clamp clause against the Lean model (Orifice.clampGroup): a group the code flags as limited carries exactly the
-            # smallest of its members' limit flows (each member's own type curve), the others are below all of them
+            # clamp clause against the Lean model (Orifice.clampGroup): the flow a non-last group ends with is a fixed point of
+            # the model's clamp over its members' own limit flows (clamping it again changes nothing), i.e. it is within every
+            # member's limit; (the code's `_dp_limit` flag is sticky over the iterations, so it is not used here)
             for g in range(ng - 1):
                 members = np.where(labels == g)[0]
                 lims_g = [float(np.interp(lim * 1e6, curves[typ_of[ai]][::-1, 3], curves[typ_of[ai]][::-1, 2])) for ai in members]
-                if o._dp_limit[g]:
-                    CLAMP_REQ.append(("clamp %d | %s" % (bits(2.0 * max(lims_g) + 1.0), " ".join(str(bits(v)) for v in lims_g)),
-                                      float(m[members[0]]), dict(group=g, limits=lims_g, types=typ_of[members].tolist())))
+                CLAMP_REQ.append(("clamp %d | %s" % (bits(float(m[members[0]]) * (1 - 1e-12)), " ".join(str(bits(v)) for v in lims_g)),
+                                  float(m[members[0]]), dict(group=g, limits=lims_g, types=typ_of[members].tolist())))
         ctx.count("distribute_ok")
 
 
@@ -200,9 +200,9 @@ def run(ctx):
                 bad += 1
                 if bad == 1:
                     ctx.problem("correspondence", "Model.Orifice.clampGroup vs Orificing.distribute",
-                                "limited group carries %.9g kg/s, the model's clamp gives %.9g (%s)" % (real, mv, info))
-        ctx.obligation("correspondence: groups flagged as pressure-drop limited carry Model.Orifice.clampGroup of their members' "
-                       "limits (%d groups)" % len(CLAMP_REQ), bad == 0, kind="correspondence", detail="disagreements %d" % bad)
+                                "group carries %.9g kg/s, the model's clamp would reduce it to %.9g (%s)" % (real, mv, info))
+        ctx.obligation("correspondence: the flows of the non-last groups are fixed points of Model.Orifice.clampGroup over their "
+                       "members' limits (%d groups)" % len(CLAMP_REQ), bad == 0, kind="correspondence", detail="disagreements %d" % bad)
     ctx.nontrivial = ctx.evals
     ctx.traces = ctx.evals
     ctx.trusted += ["hand model lean/Dassh/Model/Orifice.lean tied to Orificing._group by differential correspondence "
